@@ -164,6 +164,19 @@ fn factorizations(n: usize, max_d: usize) -> Vec<Vec<usize>> {
 }
 
 fn gen_case(g: &mut Gen, shape: &[(&'static str, usize)], exhaustive: bool) {
+    let max_perms = if exhaustive { usize::MAX } else { 4 };
+    gen_case_sized(g, shape, exhaustive, max_perms, &[]);
+}
+
+/// `max_perms`: how many orderings are used for reorder / transpose and for the reordered
+/// equality / similarity pairs (always including `must_include`).
+fn gen_case_sized(
+    g: &mut Gen,
+    shape: &[(&'static str, usize)],
+    exhaustive: bool,
+    max_perms: usize,
+    must_include: &[Vec<usize>],
+) {
     let d = shape.len();
     let names: Vec<&'static str> = shape.iter().map(|s| s.0).collect();
     let lens: Vec<usize> = shape.iter().map(|s| s.1).collect();
@@ -179,9 +192,14 @@ fn gen_case(g: &mut Gen, shape: &[(&'static str, usize)], exhaustive: bool) {
 
     // ---- reorder / transpose: every ordering (or a sample), every form
     let mut perms = permutations(d);
-    if !exhaustive && perms.len() > 4 {
+    if perms.len() > max_perms {
         g.rng.shuffle(&mut perms);
-        perms.truncate(4);
+        perms.truncate(max_perms);
+        for m in must_include {
+            if !perms.contains(m) {
+                perms.push(m.clone());
+            }
+        }
     }
     for perm in &perms {
         let order: Vec<&str> = perm.iter().map(|&p| names[p]).collect();
@@ -434,9 +452,14 @@ fn gen_case(g: &mut Gen, shape: &[(&'static str, usize)], exhaustive: bool) {
     }
     // every reordering of the dimensions: similar but (unless identity / indistinguishable) not equal
     let mut perms2 = permutations(d);
-    if !exhaustive && perms2.len() > 4 {
+    if perms2.len() > max_perms {
         g.rng.shuffle(&mut perms2);
-        perms2.truncate(4);
+        perms2.truncate(max_perms);
+        for m in must_include {
+            if !perms2.contains(m) {
+                perms2.push(m.clone());
+            }
+        }
     }
     for perm in &perms2 {
         let (nl, nd) = reordered_data(&lens, &data, perm);
@@ -513,6 +536,45 @@ pub fn gen(g: &mut Gen) {
         }
         let shape = named(g, &lens);
         gen_case(g, &shape, false);
+    }
+    gen_large_cases(g);
+}
+
+/// Large cases (also in the quick tier): square 2-D tensors of side 6..12 (the in-place branch
+/// of reorder_mut / transpose_mut), dimensionality 5 with all 120 orderings and 6 with a sample
+/// that always contains the cycle types which first exist there, long sides, tensors of 64..100
+/// elements with every reshape factorisation, equality / similarity pairs at those sizes.
+fn gen_large_cases(g: &mut Gen) {
+    for n in 6..=12usize {
+        let shape = named(g, &[n, n]);
+        gen_case(g, &shape, true);
+        g.count("large.square2d");
+    }
+    for lens in [vec![2, 1, 3, 2, 2], vec![2, 2, 2, 2, 2], vec![9, 1, 2, 1, 2]] {
+        let shape = named(g, &lens);
+        gen_case_sized(g, &shape, false, usize::MAX, &[]);
+        g.count("large.D5.all_120_orderings");
+    }
+    let mixed: Vec<Vec<usize>> = vec![
+        vec![1, 0, 3, 4, 2, 5], // swap + 3-cycle
+        vec![1, 0, 3, 4, 5, 2], // swap + 4-cycle
+        vec![1, 2, 0, 4, 5, 3], // two 3-cycles
+        vec![1, 2, 3, 4, 5, 0], // 6-cycle
+        vec![5, 0, 1, 2, 3, 4], // its inverse
+        vec![1, 0, 3, 2, 5, 4], // three swaps
+        vec![5, 4, 3, 2, 1, 0], // reversal
+        vec![2, 3, 4, 0, 1, 5], // 5-cycle
+    ];
+    for (lens, k) in [(vec![2, 3, 1, 2, 2, 2], 60usize), (vec![2, 2, 2, 2, 2, 2], 40), (vec![1, 2, 10, 1, 2, 1], 40)] {
+        let shape = named(g, &lens);
+        gen_case_sized(g, &shape, false, k, &mixed);
+        g.count("large.D6.sampled_orderings");
+    }
+    // 64..100 elements: every ordering, every reshape factorisation (D2 <= 3)
+    for lens in [vec![4, 4, 4], vec![10, 10], vec![2, 5, 10], vec![9, 9], vec![6, 2, 6], vec![12, 7], vec![100], vec![3, 11, 3]] {
+        let shape = named(g, &lens);
+        gen_case(g, &shape, true);
+        g.count("large.64_to_100_elements");
     }
 }
 
